@@ -3,7 +3,7 @@ import asyncio
 
 from asyncio_taskpool.queue_context import Queue
 
-from .vloop import fresh_loop, release_loop
+from .vloop import fresh_loop, release_loop, teardown_loop
 
 
 class BodyError(Exception):
@@ -103,7 +103,7 @@ class QueueWorld:
 
     def release(self):
         self.dead = True
-        release_loop(self.loop)
+        teardown_loop(self.loop)
 
     def boundary(self):
         self.sample("boundary")
